@@ -187,8 +187,8 @@ def main():
                         if rc not in (0, 1):
                             rec.setdefault("inconclusive", []).append(chk)
                     if rec["outcome"] == "survived-checks":
-                        rc, o = sh("cargo test --workspace --offline 2>&1 | grep -E '^test result|FAILED|^error|failed' | sort | uniq -c | tail -8", REPO, {"CARGO_TARGET_DIR": "/var/tmp/mutsweep-target"})
-                        if "FAILED" in o or "error" in o or "failed" in o:
+                        rc, o = sh("cargo test --workspace --offline 2>&1 | grep -E '^test result|FAILED|^error' | sort | uniq -c | tail -8", REPO, {"CARGO_TARGET_DIR": "/var/tmp/mutsweep-target"})
+                        if "FAILED" in o or "error" in o or "test result: ok" not in o:
                             rec["outcome"] = "killed-by-repo-suite-only"
                         else:
                             rec["outcome"] = "survived"
